@@ -101,6 +101,16 @@ def showOut : Out Rat → String
   | .failed e => showErr e
   | .noSuchCondition => "none"
 
+/-- library operations interleaved with actions of the USER on their own dicts (`Sum.inr (i, d)`: dict `i` now holds `d`) -/
+def runUser (stepF : World Rat → Op Rat → World Rat × Out Rat) (w : World Rat) :
+    List (Sum (Op Rat) (Nat × UDict Rat)) → World Rat × List (Nat × Out Rat)
+  | [] => (w, [])
+  | .inl o :: rest =>
+    let s := stepF w o
+    let r := runUser stepF s.1 rest
+    (r.1, (o.cid, s.2) :: r.2)
+  | .inr (i, d) :: rest => runUser stepF { w with dicts := w.dicts.set i d } rest
+
 def step (line : String) : String :=
   let r : Except String String := (do
     let o ← next
@@ -115,9 +125,27 @@ def step (line : String) : String :=
         | "wrapped" => do pure (n, DEntry.wrapped (← ufun))  -- the user handed over a UserFunction object
         | "tensor" => do pure (n, DEntry.tensor (← table))   -- a table of values (tensor, or a callable returning a stored tensor)
         | t => throw s!"entry:{t}"))
-      let ops ← many op
-      let w : World Rat := World.init dicts
-      let res := if mode == "old" then runOld w ops else runNew w ops
+      -- operations of the library (`c`, `e`) interleaved with actions of the USER on their own dicts
+      -- (`u <dict index> <new content>`): the user's action replaces the dict in the world, nothing else
+      let ops ← many (do
+        let t ← (do match (← get) with
+                    | "u" :: _ => pure true
+                    | _ => pure false : P Bool)
+        if t then do
+          let _ ← next
+          let i ← nat
+          let d ← many (do
+            let n ← next
+            let kind ← next
+            match kind with
+            | "raw" => do pure (n, DEntry.raw (← ufun))
+            | "wrapped" => do pure (n, DEntry.wrapped (← ufun))
+            | "tensor" => do pure (n, DEntry.tensor (← table))
+            | t => throw s!"entry:{t}")
+          pure (Sum.inr (i, d))
+        else do pure (Sum.inl (← op)) : P (Sum (Op Rat) (Nat × UDict Rat)))
+      let stepF := if mode == "old" then stepOld else stepNew
+      let res := runUser stepF (World.init dicts) ops
       let tags := res.1.dicts.map fun d => " ".intercalate (d.map fun p => p.1 ++ ":" ++ p.2.tag)
       return " ".intercalate (res.2.map fun p => showOut p.2) ++ " | " ++ " ; ".intercalate tags
     | "runs" => do
